@@ -126,6 +126,12 @@ def build(case):
         else:
             proxg = sp.prox.NoOp([n])
         proxfc = sp.prox.L2Reg([m], 1, y=-y)
+        if case.get("f") == "l1":
+            # f(v) = nu*||v - y||_1: prox of sigma f^* is a clip, so BOTH prox operators can saturate and x, u
+            # can stand still for an update while the extrapolated point still moves
+            nu = case.get("nu", 1.0)
+            yr = y.real.astype(np.float64)
+            proxfc = (lambda s_, u_, _y=yr, _nu=nu: np.clip(u_ - s_ * _y, -_nu, _nu))
         x = np.zeros(n, dt) if case.get("x0", "zeros") == "zeros" else _vec(seed + 3, n, cplx).astype(dt)
         u = np.zeros(m, dt)
         kw = {}
@@ -325,7 +331,7 @@ def _flavour(case):
     if case["alg"] == "GradientMethod":
         return ":accelerated" if case.get("accelerate") else ":plain"
     if case["alg"] == "PDHG":
-        return ":" + str(case.get("g", ""))
+        return ":f=%s,g=%s" % (case.get("f", "l2"), case.get("g", ""))
     return ""
 
 
@@ -348,8 +354,12 @@ def st_instance(draw, kinds=ALG_KINDS, max_iter=st.integers(0, 12)):
         c.update(g=draw(st.sampled_from(["l1", "l1", "box", "none"])), sigma=draw(st.sampled_from([1.0, 0.1, 1e-2, 1e-3, 1e-4])),
                  tauc=draw(st.sampled_from([1.0, 0.5])), mu=draw(st.sampled_from([0.25, 1.0, 4.0])),
                  x0=draw(st.sampled_from(["zeros", "zeros", "rand"])), accel=draw(st.sampled_from([None, None, "dual"])))
-        if c["g"] == "box":
+        c["f"] = draw(st.sampled_from(["l2", "l2", "l1"]))
+        c["nu"] = draw(st.sampled_from([0.5, 1.0, 2.0]))
+        if c["g"] == "box" or c["f"] == "l1":
             c["cplx"] = False
+        if c["f"] == "l1":
+            c["accel"] = None
     if k == "Newton":
         c.update(x0=draw(st.sampled_from(["zeros", "rand"])), b=draw(st.sampled_from(["rand", "zero"])))
         c["cplx"] = False
@@ -428,8 +438,15 @@ def st_early(draw):
         # momentum runs into a box corner (DESIGN section 5 row 16): small steps, corner start, 2-3 unknowns
         c.update(g="box", accelerate=True, x0="corner", c=draw(st.sampled_from([0.25, 0.125, 0.5])), cplx=False,
                  n=draw(st.integers(2, 3)), m=draw(st.integers(2, 3)))
-    if c["alg"] == "PDHG" and draw(st.booleans()):
-        c.update(g="l1", x0="zeros", sigma=draw(st.sampled_from([1e-2, 1e-3, 1e-4])))
+    if c["alg"] == "PDHG":
+        fam = draw(st.integers(0, 3))
+        if fam == 0:
+            c.update(g="l1", x0="zeros", sigma=draw(st.sampled_from([1e-2, 1e-3, 1e-4])))
+        elif fam == 1:
+            # saturating data term AND saturating prox (l1-l1 / l1-box): every part of (x, u, x_ext) can stall separately
+            c.update(f="l1", g=draw(st.sampled_from(["l1", "box"])), cplx=False, accel=None,
+                     x0=draw(st.sampled_from(["zeros", "rand"])), sigma=draw(st.sampled_from([1.0, 0.5, 0.25, 2.0])),
+                     n=draw(st.integers(1, 3)), m=draw(st.integers(1, 3)))
     return c
 
 
